@@ -784,3 +784,19 @@ Theorem C06_where_refines_partial : forall (V : Type) (truth : V -> bool) G next
     denote V r idx = if truth (denote V c idx) then denote V t idx else denote V u idx.
 Proof. exact where_refines_partial. Qed.
 Print Assumptions C06_where_refines_partial.
+
+(** * __iter__: [dim_to_dense(0)], then the slices along the leading dimension, in order.  The branch for a
+    [unitAxis] leading dimension yields ONE tensor that keeps the storage, the physical axes and the default.
+    Guard as for [dim_to_dense]: a size-1 leading dimension is [unitAxis]. *)
+Require Import Fggs.Proofs.PTensor_iter.
+
+Theorem C06_iter : forall (V : Type) next (t : ptensor V) l ed,
+  wf V t -> vars_below V next t -> nth_error (vaxes t) 0 = Some ed ->
+  (is_unit ed = true \/ numel ed <> 1) ->
+  pt_iter V next t = Ok l ->
+  length l = numel ed /\
+  forall j s, nth_error l j = Some s ->
+    wf V s /\ shape V s = tl (shape V t) /\ default s = default t /\
+    forall idx', in_bounds (tl (shape V t)) idx' -> denote V s idx' = denote V t (j :: idx').
+Proof. exact iter_refines. Qed.
+Print Assumptions C06_iter.
